@@ -51,7 +51,8 @@ func Project(schemaFiles map[string]string, sources []Source) (*Exported, error)
 // LineKinds classifies the lines of a source the way parsePrecedingComment reads them.
 func LineKinds(text string) string {
 	var items []string
-	for _, l := range strings.Split(text, "\n") {
+	// as parsePrecedingComment splits (and the lexer counts): "\n", "\r\n" and a bare "\r" end a line
+	for _, l := range strings.Split(strings.NewReplacer("\r\n", "\n", "\r", "\n").Replace(text), "\n") {
 		t := strings.TrimSpace(l)
 		switch {
 		case strings.HasPrefix(t, "# @genqlient"):
